@@ -1035,12 +1035,14 @@ def plane_cylinder_wrapper(
   """Calculates contacts between a cylinder and a plane."""
   # cylinder axis
   cylinder_axis = wp.vec3(cylinder.rot[0, 2], cylinder.rot[1, 2], cylinder.rot[2, 2])
+  cylinder_xaxis = wp.vec3(cylinder.rot[0, 0], cylinder.rot[1, 0], cylinder.rot[2, 0])
 
   dist, pos, normal = plane_cylinder(
     plane.normal,
     plane.pos,
     cylinder.pos,
     cylinder_axis,
+    cylinder_xaxis,
     cylinder.size[0],  # radius
     cylinder.size[1],  # half_height
   )
